@@ -10,6 +10,7 @@ mod judge;
 mod model;
 mod props;
 mod rng;
+mod surface;
 
 use case::Tier;
 
@@ -41,6 +42,12 @@ fn main() {
                 }),
             }
         }
+        return;
+    }
+    if args.len() >= 3 && args[1] == "corpus" {
+        let c = corpus::load_corpus();
+        let k: usize = args[2].parse().unwrap_or(0);
+        println!("{} entries; entry {}: {}\n{}\ngoals: {:#?}", c.len(), k, c[k].file, c[k].program, c[k].goals);
         return;
     }
     if args.len() < 3 || args[1] != "worker" {
